@@ -240,7 +240,7 @@ E_FUN = ["transcode::value::Value::deserialize (Visitor: all visit_* methods, vi
 add("e1_value_scalars", "transcode::value",
     desc="Value: every scalar kind/value is stored in the same-typed variant and serialized back through the same-typed method with the identical value; borrowed strings stay borrowed",
     bounds="1 scalar, payload any u128 bit pattern, str <= 2 B, visitor form copied/owned/borrowed", functions=E_FUN,
-    covers=["E1 borrowed string", "E1 f64"], props=["C01", "C04"], timeout=600, mem_gb=8)
+    covers=["E1 borrowed string", "E1 f64"], props=["C01", "C04", "C08"], timeout=600, mem_gb=8)
 add("e2_value_structure", "transcode::value",
     desc="Value round trip of structure: deserializing an event sequence and serializing the Value yields the same events, order and roles; collections declare their exact length",
     bounds="<= 4 events, nesting 1, honest length hints <= 4", functions=E_FUN,
